@@ -59,3 +59,5 @@ def run(ctx):
             (name != "UNQUOTER" or (not cfg["unsafe"] and not cfg["ignore"]))
         ctx.ob("T8", f"_quoters.{name}", f"configuration {cfg}", ok,
                f"unquoter configuration {cfg} does not match the accessor contract {w}", sample=str(cfg))
+    from ..rules import flow
+    flow.f_build_args(ctx)      # a supplied user / password / host / port is never dropped by the builders
